@@ -19,9 +19,11 @@ Rows0 == {<<"bus", 0>>, <<"bus", 1>>, <<"bus", 2>>, <<"bus", 3>>,
           <<"switch", 0>>, <<"switch", 1>>, <<"switch", 2>>, <<"switch", 3>>,
           <<"measurement", 0>>, <<"measurement", 1>>, <<"measurement", 2>>, <<"measurement", 3>>,
           <<"poly_cost", 0>>, <<"poly_cost", 1>>, <<"pwl_cost", 0>>,
-          <<"group", 0>>, <<"group", 1>>, <<"group", 2>>, <<"group", 3>>, <<"group", 4>>, <<"group", 5>>,
+          <<"group", 0>>, <<"group", 1>>, <<"group", 2>>, <<"group", 3>>, <<"group", 4>>, <<"group", 5>>, <<"group", 6>>,
           <<"controller", 0>>, <<"controller", 1>>, <<"controller", 2>>}
-\* group table rows: 0..3 = group 0 x (line, bus, switch, load), 4..5 = group 1 x (trafo, gen)
+\* group table rows: 0..3 = group 0 x (line, bus, switch, load), 4..5 = group 1 x (trafo, gen),
+\* 6 = group 2 x sgen, a REFERENCE-COLUMN group (members named by net.sgen.name; a member "points to an existing row" iff a
+\* row carries that name - the harness projects a name without row as index -1)
 Refs0 == {R("line", 0, "from_bus", "bus", 0, "own"), R("line", 0, "to_bus", "bus", 1, "own"),
           R("line", 1, "from_bus", "bus", 1, "own"), R("line", 1, "to_bus", "bus", 2, "own"),
           R("trafo", 0, "hv_bus", "bus", 2, "own"), R("trafo", 0, "lv_bus", "bus", 3, "own"),
@@ -40,6 +42,7 @@ Refs0 == {R("line", 0, "from_bus", "bus", 0, "own"), R("line", 0, "to_bus", "bus
           R("group", 2, "element_index", "switch", 1, "member"), R("group", 3, "element_index", "load", 0, "member"),
           R("group", 3, "element_index", "load", 1, "member"),
           R("group", 4, "element_index", "trafo", 0, "member"), R("group", 5, "element_index", "gen", 0, "member"),
+          R("group", 6, "element_index", "sgen", 0, "member"),
           R("controller", 0, "element_index", "load", 0, "own"), R("controller", 1, "element_index", "trafo", 0, "own"),
           R("controller", 2, "element_index", "trafo3w", 0, "own")}
 ResTables == {"bus", "line", "trafo", "trafo3w", "ext_grid", "gen", "load", "sgen"}
